@@ -405,6 +405,27 @@ class Stats:
                     cross=dict(self.cross))
 
 
+class Hang(Exception):
+    """a single path ran longer than PATH_SECONDS of wall time (non-terminating loop in the code under test)"""
+
+
+PATH_SECONDS = int(os.environ.get('VERIF_PATH_SECONDS', '600') or 600)
+
+
+def _on_alarm(signum, frame):
+    raise Hang('path did not finish within %d s' % PATH_SECONDS)
+
+
+def _watchdog(seconds):
+    try:
+        import signal
+        if seconds:
+            signal.signal(signal.SIGALRM, _on_alarm)
+        signal.alarm(seconds)
+    except (ValueError, AttributeError):  # not the main thread / no SIGALRM
+        pass
+
+
 def explore(fn, on_path=None, max_paths=10 ** 9, max_seconds=None):
     """Run fn() once per feasible path. fn's return value (or a raised Exception, passed as
     the value) is given to on_path(value, ctx)."""
@@ -419,7 +440,13 @@ def explore(fn, on_path=None, max_paths=10 ** 9, max_seconds=None):
             c.start()
             try:
                 try:
-                    r = fn()
+                    _watchdog(PATH_SECONDS)
+                    try:
+                        r = fn()
+                    finally:
+                        _watchdog(0)
+                except Hang as ex:  # the code under test did not return: reported as an outcome of the path
+                    r = ex
                 except EngineLimit as ex:
                     st.incomplete = 'EngineLimit: %s' % ex
                     raise Inconclusive(str(ex))
